@@ -171,6 +171,15 @@ class Engine(GenericConcreteEngine[Callable[..., Any]]):
                         # payload, which callers would mistake for a change).
                         return tree, done, messages
                     return (transfer.reapply(upstream), done, messages)
+            case MarkerRelation():
+                # Other (e.g. user-defined) marker relations: we do not know
+                # whether an operation may be moved upstream of them, so stop
+                # here, as for binary operations.
+                return (
+                    tree,
+                    False,
+                    (f"backtracking through {type(tree).__name__} marker relations is not implemented",),
+                )
         raise NotImplementedError(f"Unsupported relation type {tree} for engine {self}.")
 
     def execute(self, relation: Relation) -> RowIterable:
